@@ -11,8 +11,9 @@ PURE_CALLS = {"len", "min", "max", "abs", "int", "float", "np.log", "np.log2", "
 
 
 class Deps:
-    def __init__(self, w):
+    def __init__(self, w, known_terms=()):
         self.w = w
+        self.known_terms = set(known_terms)     # terms to be reported as ("known", term) instead of unknown (e.g. a loop variable)
         self.by_term = {}
         for e in w.events:
             if e.kind == "call":
@@ -84,7 +85,9 @@ class Deps:
         self._memo[t] = set()       # cycles
         k = t[0] if isinstance(t, tuple) and t else None
         out = set()
-        if k == "param":
+        if t in self.known_terms:
+            out.add(("known", repr(t)[:40]))
+        elif k == "param":
             out.add(("param", t[1]))
         elif k == "len":
             if isinstance(t[1], str) and t[1] not in ("slice", "bytes"):
